@@ -62,6 +62,10 @@ class OBytes:
     def __bool__(self):
         return not self.empty
 
+    def isascii(self):
+        # content is opaque: either answer is possible
+        return World.ctx.truth(World.ctx.bool('isascii_%s' % _t(self.tag)))
+
     def decode(self, enc='utf-8', errors='strict'):
         c = canon(enc)
         World.calls.append(('decode', self.tag, c, errors))
